@@ -27,6 +27,17 @@ func VerifC15Resend() {
 		ms.SavePacket(session.Outgoing, p)
 		ids = append(ids, p.ID)
 	}
+	// one of them may have been acknowledged (deleted) or replaced by its PUBREL meanwhile
+	switch vChoice("change", 3) {
+	case 1:
+		k := vLen("acked", 0, n-1)
+		ms.DeletePacket(session.Outgoing, ids[k])
+		ids = append(ids[:k:k], ids[k+1:]...)
+		n--
+	case 2:
+		k := vLen("released", 0, n-1)
+		ms.SavePacket(session.Outgoing, &packet.Pubrel{ID: ids[k]})
+	}
 	conn := newVConn(false)
 	cl := NewClient(be, conn)
 	cl.InflightMessages = W
